@@ -70,3 +70,58 @@ def wire_constants(repo):
     if p.returncode != 0:
         return [{"id": "finite:wire-constants", "ok": False, "detail": "enumeration crashed: " + (p.stderr or "")[-500:]}]
     return json.loads(p.stdout.strip().splitlines()[-1])
+
+
+# ---------------------------------------------------------------------------------------------------------------
+# the handler table (C02 / C07 / C08): handler number -> handler function, as the contracts of both halves assume.
+# The forwarding half (netref contracts) is proved to send `HANDLE_X` with these argument counts; the serving half
+# (handler contracts) is proved per FUNCTION; this enumeration ties the number to the function on the real table.
+# ---------------------------------------------------------------------------------------------------------------
+HANDLER_TABLE = {
+    # constant: (handler function, number of arguments the forwarding side sends after the connection itself)
+    "HANDLE_PING": ("_handle_ping", 1), "HANDLE_CLOSE": ("_handle_close", 0), "HANDLE_GETROOT": ("_handle_getroot", 0),
+    "HANDLE_GETATTR": ("_handle_getattr", 2), "HANDLE_DELATTR": ("_handle_delattr", 2), "HANDLE_SETATTR": ("_handle_setattr", 3),
+    "HANDLE_CALL": ("_handle_call", 3), "HANDLE_CALLATTR": ("_handle_callattr", 4), "HANDLE_REPR": ("_handle_repr", 1),
+    "HANDLE_STR": ("_handle_str", 1), "HANDLE_CMP": ("_handle_cmp", 3), "HANDLE_HASH": ("_handle_hash", 1),
+    "HANDLE_DIR": ("_handle_dir", 1), "HANDLE_PICKLE": ("_handle_pickle", 2), "HANDLE_DEL": ("_handle_del", 2),
+    "HANDLE_INSPECT": ("_handle_inspect", 1), "HANDLE_BUFFITER": ("_handle_buffiter", 2),
+    "HANDLE_OLDSLICING": ("_handle_oldslicing", 6), "HANDLE_CTXEXIT": ("_handle_ctxexit", 2),
+    "HANDLE_INSTANCECHECK": ("_handle_instancecheck", 2),
+}
+
+_HANDLERS = r'''
+import sys, json, inspect
+sys.path.insert(0, sys.argv[1])
+expect = json.loads(sys.argv[2])
+from rpyc.core import consts
+from rpyc.core.protocol import Connection
+out = []
+def rec(i, ok, detail=""):
+    out.append({"id": "finite:" + i, "ok": bool(ok), "detail": detail})
+table = Connection._request_handlers()
+names = sorted(k for k in vars(consts) if k.startswith("HANDLE_"))
+rec("handler-constants", names == sorted(expect), "HANDLE_* constants differ from the forwarding table: %r" % (sorted(set(names) ^ set(expect)),))
+vals = [getattr(consts, n) for n in names]
+rec("handler-numbers-distinct", len(set(vals)) == len(vals), "two operations share one handler number: %r" % (vals,))
+rec("handler-table-keys", sorted(table) == sorted(vals), "the table serves %r, the constants are %r" % (sorted(table), sorted(vals)))
+for n, (fname, nargs) in sorted(expect.items()):
+    f = table.get(getattr(consts, n, None))
+    want = vars(Connection).get(fname)
+    rec("handler:%s->%s" % (n, fname), f is not None and f is want,
+        "%s is served by %s, the operation's handler is Connection.%s" % (n, getattr(f, "__qualname__", f), fname))
+    if f is not None:
+        try:
+            inspect.signature(f).bind(*([None] * (nargs + 1)))
+            ok = True
+        except TypeError as e:
+            ok = False
+        rec("handler-arity:%s" % n, ok, "%s cannot be called with the %d argument(s) the proxy sends" % (fname, nargs))
+print(json.dumps(out))
+'''
+
+
+def handler_table(repo):
+    p = subprocess.run(["/venv/bin/python", "-c", _HANDLERS, repo, json.dumps(HANDLER_TABLE)], capture_output=True, text=True, timeout=120)
+    if p.returncode != 0:
+        return [{"id": "finite:handler-table", "ok": False, "detail": "enumeration crashed: " + (p.stderr or "")[-500:]}]
+    return json.loads(p.stdout.strip().splitlines()[-1])
